@@ -2,7 +2,7 @@
    record semantics of RecordTheory.v. *)
 From Coq Require Import List NArith ZArith Bool Lia Arith String ZifyN ZifyNat ZifyBool.
 From O1722 Require Import Sym Bits Host FieldModel FieldProofs Spec SpecProofs RecordTheory AccModel AccProofs FormatChecks
-  LegacyModel LegacySpec LegacyProofs NormalProofs C13Proofs C01Proofs C17Proofs C11Proofs C12Proofs.
+  LegacyModel LegacySpec LegacyProofs NormalProofs Paths C13Proofs C01Proofs C17Proofs C11Proofs C12Proofs.
 From O1722.Generated Require Import Tables.
 Import ListNotations.
 Local Open Scope N_scope.
